@@ -24,7 +24,10 @@ var idPool = []string{"1", "2", "3", "a", "b", "id-1", "x y", "é", `q"`, "0", "
 func DrawID(t *core.Tape) string { return idPool[t.Draw(len(idPool))] }
 
 // PlainIDs are IDs that need no escaping anywhere.
-var PlainIDs = []string{"1", "2", "3", "4", "5", "a", "b", "c", "ab", "abc", "10", "9", "B", "id-1"}
+// They include IDs that are numerically equal but textually different and IDs
+// mixing digits and letters, so that an ordering that is not plain string
+// order (or not even a total order) shows.
+var PlainIDs = []string{"1", "2", "3", "4", "5", "a", "b", "c", "ab", "abc", "10", "9", "B", "id-1", "01", "1a", "007", "7", "2b"}
 
 // DrawRelValue draws a to-one ID ("" = empty) or a to-many ID list.
 func DrawRelValue(t *core.Tape, toOne bool) interface{} {
